@@ -149,7 +149,11 @@ def _load(schema, world, res, top, mode, eol=None, loader=None,
             f.write(world.store[top])
         os.chdir(os.path.join(scratch, "a"))
         try:
-            with open("top.conf", encoding="utf-8", newline="") as f:
+            # (newline="\n": lines end at LF and nowhere else, nothing is
+            # translated -- the stream yields what a StringIO of the same
+            # text yields; with newline="" a lone CR inside a comment would
+            # count as a line end of its own)
+            with open("top.conf", encoding="utf-8", newline="\n") as f:
                 return loader.loadFile(f)
         finally:
             os.chdir(os.path.join(scratch, "b"))
